@@ -51,3 +51,22 @@ Theorem C10_numeric_after_validation : forall x,
   numeric_entry (match validate_entry VdNumeric x with Some y => y | None => x end).
 Proof. exact validate_numeric. Qed.
 Print Assumptions C10_numeric_after_validation.
+
+(* From the path text (CmpAddr.v, QueryAddr.v, with C01_filter_retrieval): the verdict of a literal comparison written in a
+   filter depends on the value a member offers only through these tests; a number decoded as float64 and the same number
+   decoded as json.Number get the same verdict from every operator, and neither ever equals a string, boolean or null
+   literal (so `!=` against such a literal keeps them). *)
+From JP Require Import Json KeyDefs CmpAddr LitParse QueryAddr.
+Theorem C10_number_verdict_decode_invariant : forall o f s a,
+  entry_test o f (Some (VJNum s a)) = entry_test o f (Some (VNum a)).
+Proof. intros o f s a. reflexivity. Qed.
+Theorem C10_typed_literal_never_matches_a_number : forall l a s, litv_ok l = true ->
+  lit_test (litv_value l) (Some (VNum a)) = false /\ lit_test (litv_value l) (Some (VJNum s a)) = false.
+Proof. intros l a s _. destruct l; split; reflexivity. Qed.
+Theorem C10_string_literal_matches_only_that_string : forall q body e, lit_test (litv_value (LStr q body)) e = true ->
+  e = Some (VStr (Text.text_of body)).
+Proof.
+  intros q body e H. destruct e as [v|]; [|discriminate H]. destruct v; try discriminate H. cbn [litv_value lit_test] in H.
+  apply String.eqb_eq in H. subst. reflexivity.
+Qed.
+Print Assumptions C10_number_verdict_decode_invariant.
